@@ -706,3 +706,7 @@ def run(db, ctx):
     from . import C04
     common.shared_rule(db, ctx, C04.lookahead_rules, 'R1.8', 'the look-ahead rows the kernels read past the last sequence row are what configure_wrap put there: '
                        'R = rows - wrap before resizing, resize to rows + m - wrap, cell(R+i, j) := cell(i, j+1), last column default, wrap := m; configure(motif) = configure_wrap(len - 1) for every non-empty motif (shared with R4.5 / R4.8)', ['R4.5', 'R4.8'])
+    # the kernels score the striped matrix: cell (i mod R, i div R) must hold symbol i of the sequence, on every backend (seed C01-7 swapped two
+    # rows of the AVX2 transposition: every score window covering them is the score of another sequence)
+    common.shared_rule(db, ctx, C04.stripe_rules, 'R1.9', 'the striped matrix the kernels read is the sequence: AVX2 transposition lanes, block bookkeeping, scalar tail '
+                       'and fill, generic placement, R = ceil(len / C) (shared with R4.1 - R4.4)', ['R4.1', 'R4.2', 'R4.3', 'R4.4'])
